@@ -160,6 +160,15 @@ class Facts:
                 return k == "eq"
         if k == "lt":
             a, b = atom[1], atom[2]
+            # integers: c < x  <=>  !(x < c+1)
+            if is_int(a) and not is_int(b):
+                o = self.atoms.get(("lt", b, Int(a[1] + 1)))
+                if o is not None:
+                    return not o
+            if is_int(b) and not is_int(a):
+                o = self.atoms.get(("lt", Int(b[1] - 1), a))
+                if o is not None:
+                    return not o
             # checked unsigned subtraction never exceeds its minuend: !(a < a - x)
             if isinstance(b, tuple) and b[0] == "bin" and b[1] == "Sub" and b[2] == a:
                 return False
@@ -260,7 +269,15 @@ def _eq_atom(a, b):
 
 
 def _maybe_signed(t):
-    return isinstance(t, tuple) and t[0] == "signed"
+    if not isinstance(t, tuple) or not t:
+        return False
+    if t[0] == "signed":
+        return True
+    if t[0] == "bin" and len(t) == 4:
+        return _maybe_signed(t[2]) or _maybe_signed(t[3])
+    if t[0] in ("un", "cast") and len(t) == 3:
+        return _maybe_signed(t[2])
+    return False
 
 
 # ---------------------------------------------------------------- affine forms
@@ -527,3 +544,12 @@ def get_field(t, name, variant=None):
             continue
         break
     return ("field", t, variant, name)
+
+
+def unsign(t):
+    """remove the ('signed', x) type tags (they only matter to the comparison rules in Facts)"""
+    if isinstance(t, tuple):
+        if len(t) == 2 and t[0] == "signed":
+            return unsign(t[1])
+        return tuple(unsign(x) if isinstance(x, tuple) else x for x in t)
+    return t
